@@ -244,6 +244,202 @@ def build(case):
     raise ValueError(k)
 
 
+
+# ---------------------------------------------------------------------------------------------
+# nested dictionaries: the placeholder mechanism (_ol_from_dict / _od_from_list_and_dict) against
+# PV/Model/Tree.lean (op "tree"), and the property itself (what is loaded is what was dumped)
+# ---------------------------------------------------------------------------------------------
+TREE_PLAIN = ['x', '', 'text', 'OBS', 'a1b', '0', '12', 'obs7']
+
+
+def _tree_pool(case):
+    rng = __import__('random').Random(case['seed'])
+    nprng = np.random.default_rng(case['seed'])
+    l = gen_obs_set(rng, nprng, 6)
+    corr = pe.Corr([l[0], l[1], l[2]])
+    arr = np.array([l[3], l[4]], dtype=object)
+    return rng, [('obs', o) for o in l] + [('corr', corr), ('arr', arr)]
+
+
+def gen_tree(rng, pool, reps, depth, adversarial):
+    """a python value: structure / str / number / list / dict"""
+    r = rng.random()
+    if depth <= 0:
+        r *= 0.62
+    if r < 0.30:
+        return rng.choice(pool)[1]
+    if r < 0.42:
+        if adversarial == 'clash' and rng.random() < 0.35:
+            return rng.choice([reps + '0', reps + '7', reps + '12abc', reps + '1_0', reps + '3 '])
+        if adversarial and rng.random() < 0.5:
+            return rng.choice([reps, reps + 'x', 'x' + reps + '1', reps.lower() + '1', reps[:-1] + '1', reps + '-1', reps + ' 1']) if reps else 'x'
+        return rng.choice(TREE_PLAIN)
+    if r < 0.56:
+        return rng.choice([1, 2.5, True, None, -3, 0.0])
+    if r < 0.62:
+        obs = [o for k, o in pool if k == 'obs']
+        return [rng.choice(obs) for _ in range(rng.randint(1, 3))]        # a list of Obs: one placeholder / member by member
+    if r < 0.82:
+        return [gen_tree(rng, pool, reps, depth - 1, adversarial) for _ in range(rng.randint(0, 4))]
+    return {rng.choice(['k', 'key', 'a', 'b', 'c', reps + '1', 'd', 'inner', 'z']) + str(i): gen_tree(rng, pool, reps, depth - 1, adversarial)
+            for i in range(rng.randint(0, 4))}
+
+
+def tree_wire(x, ids):
+    if isinstance(x, pe.Obs):
+        return {'t': 'leaf', 'k': 'obs', 'id': ids[id(x)]}
+    if isinstance(x, pe.Corr):
+        return {'t': 'leaf', 'k': 'corr', 'id': ids[id(x)]}
+    if isinstance(x, np.ndarray):
+        return {'t': 'leaf', 'k': 'arr', 'id': ids[id(x)]}
+    if isinstance(x, str):
+        return {'t': 'str', 's': x}
+    if isinstance(x, list):
+        return {'t': 'list', 'l': [tree_wire(v, ids) for v in x]}
+    if isinstance(x, dict):
+        return {'t': 'dict', 'kv': [[k, tree_wire(v, ids)] for k, v in x.items()]}
+    return {'t': 'atom', 'j': pyjson.dumps(x)}
+
+
+def slot_wire(e, ids):
+    if isinstance(e, list):
+        return {'many': [ids[id(o)] for o in e]}
+    k = 'obs' if isinstance(e, pe.Obs) else 'corr' if isinstance(e, pe.Corr) else 'arr'
+    return {'one': [k, ids[id(e)]]}
+
+
+def tree_same(a, b):
+    """identity on structures, equality elsewhere, key order included"""
+    if isinstance(a, (pe.Obs, pe.Corr, np.ndarray)) or isinstance(b, (pe.Obs, pe.Corr, np.ndarray)):
+        return a is b
+    if type(a) != type(b):
+        return False
+    if isinstance(a, list):
+        return len(a) == len(b) and all(tree_same(u, v) for u, v in zip(a, b))
+    if isinstance(a, dict):
+        return list(a) == list(b) and all(tree_same(a[k], b[k]) for k in a)
+    return a == b or (a != a and b != b)
+
+
+def exc_kind(e):
+    m = str(e)
+    if isinstance(e, IndexError):
+        return 'indexError'
+    if isinstance(e, ValueError):
+        return 'valueError'
+    if 'matches the placeholder' in m:
+        return 'placeholderClash'
+    if 'alphanumeric' in m:
+        return 'notAlnum'
+    if 'No placeholder has been replaced' in m:
+        return 'noPlaceholder'
+    return 'other:%s: %s' % (type(e).__name__, m[:80])
+
+
+def has_structure(x):
+    if isinstance(x, (pe.Obs, pe.Corr, np.ndarray)):
+        return True
+    if isinstance(x, list):
+        return any(has_structure(v) for v in x)
+    if isinstance(x, dict):
+        return any(has_structure(v) for v in x.values())
+    return False
+
+
+def check_tree(ctx, case):
+    probs = []
+    rng, pool = _tree_pool(case)
+    ids = {id(o): i for i, (_, o) in enumerate(pool)}
+    reps = case['reps']
+    d = gen_tree(rng, pool, reps, case['depth'], case['adv'])
+    while not isinstance(d, dict):
+        d = {'root': d, 'o': pool[0][1]} if rng.random() < 0.8 else {'root': d}
+    ctx.count('tree:adv=%s' % case['adv'])
+    # --- export: implementation vs model
+    try:
+        ol, nd = jio._ol_from_dict(d, reps)
+        impl = ('ok', ol, nd)
+    except Exception as e:
+        impl = ('exc', exc_kind(e))
+    ctx.count('tree:export=%s' % (impl[0] if impl[0] == 'ok' else impl[1]))
+    if impl[0] == 'exc' and impl[1].startswith('other:'):
+        probs.append(('violation', 'tree-export-unexpected-exception', impl[1]))
+        return probs
+    if ctx.lean is not None:
+        r = ctx.lean.call({'op': 'tree', 'what': 'export', 'reps': reps, 'd': tree_wire(d, ids)})
+        if '_err' in r:
+            probs.append(('disagree', 'lean-driver-error', r['_err']))
+        elif impl[0] == 'exc':
+            if r.get('exc') != impl[1]:
+                probs.append(('disagree', 'tree-export', 'impl raises %s, model gives %s' % (impl[1], str(r)[:200])))
+        else:
+            want = {'nd': tree_wire(impl[2], ids), 'ol': [slot_wire(e, ids) for e in impl[1]]}
+            if r.get('exc') or r.get('nd') != want['nd'] or r.get('ol') != want['ol']:
+                probs.append(('disagree', 'tree-export', 'impl %s vs model %s' % (str(want)[:300], str(r)[:300])))
+    if impl[0] != 'ok':
+        return probs
+    ol, nd = impl[1], impl[2]
+    # --- the property on the function pair: import(export(d)) is d (or a refusal when there is nothing to replace)
+    try:
+        back = jio._od_from_list_and_dict(ol, nd, reps)
+        if not tree_same(back, d):
+            probs.append(('violation', 'tree-roundtrip', 'import(export(d)) differs from d: %s vs %s' % (str(tree_wire(back, ids))[:300], str(tree_wire(d, ids))[:300])))
+        if not ol:
+            probs.append(('violation', 'tree-roundtrip', 'import accepted a dictionary without placeholders'))
+    except Exception as e:
+        k = exc_kind(e)
+        if not (k == 'noPlaceholder' and not ol):
+            probs.append(('violation', 'tree-roundtrip', 'import of the export raises %s' % k))
+    # --- import of a tampered placeholder dictionary: implementation vs model (error kinds included)
+    nd2, ol2 = nd, list(ol)
+    how = rng.choice(['asis', 'short', 'string', 'string', 'extra'])
+    if how == 'short' and ol2:
+        ol2 = ol2[:rng.randrange(len(ol2))]
+    elif how == 'string':
+        nd2 = dict(nd)
+        nd2['tamper'] = rng.choice([reps + '0', reps + '99', reps + '1_0', reps + '0 ', reps + '0x', reps + '00', reps + '1\n', 'x' + reps + '0', reps])
+    elif how == 'extra':
+        nd2 = dict(nd)
+        nd2['tamper'] = [rng.choice(['t', reps + '0']), {'q': reps + str(max(0, len(ol2) - 1))}]
+    ctx.count('tree:import=%s' % how)
+    try:
+        back2 = ('ok', jio._od_from_list_and_dict(ol2, nd2, reps))
+    except Exception as e:
+        back2 = ('exc', exc_kind(e))
+    if ctx.lean is not None:
+        r = ctx.lean.call({'op': 'tree', 'what': 'import', 'reps': reps, 'ol': [slot_wire(e, ids) for e in ol2], 'd': tree_wire(nd2, ids)})
+        if '_err' in r:
+            probs.append(('disagree', 'lean-driver-error', r['_err']))
+        elif back2[0] == 'exc':
+            if r.get('exc') != back2[1]:
+                probs.append(('disagree', 'tree-import', '%s: impl raises %s, model gives %s' % (how, back2[1], str(r)[:200])))
+        elif r.get('d') != tree_wire(back2[1], ids):
+            probs.append(('disagree', 'tree-import', '%s: impl %s vs model %s' % (how, str(tree_wire(back2[1], ids))[:300], str(r)[:300])))
+    # --- the whole path through a file, for a share of the cases
+    if case.get('file') and has_structure(d):
+        tmp = tempfile.mkdtemp(prefix='c11t_', dir='/dev/shm' if os.path.isdir('/dev/shm') else None)
+        try:
+            with warnings.catch_warnings(), quiet():
+                warnings.simplefilter('ignore')
+                try:
+                    jio.dump_dict_to_json(d, os.path.join(tmp, 'f'), gz=case.get('gz', True), reps=reps)
+                    y = jio.load_json_dict(os.path.join(tmp, 'f'), gz=case.get('gz', True), verbose=False, reps=reps)
+                except Exception as e:
+                    ctx.count('tree:file-refused')
+                    y = None
+                if y is not None:
+                    ctx.count('tree:file-ok')
+                    SCALE[0] = max_abs(canon(d)) or 1.0
+                    dd = diff(canon(d), canon(y))
+                    if dd:
+                        probs.append(('violation', 'tree-file-roundtrip', dd))
+                    elif list(d) != list(y):
+                        probs.append(('violation', 'tree-file-roundtrip', 'key order changed'))
+        finally:
+            shutil.rmtree(tmp, ignore_errors=True)
+    return probs
+
+
 REPO_ROOT = os.environ.get('PYERRORS_VERIF_ROOT', '/repo')
 
 
@@ -298,6 +494,8 @@ CORRUPT = ['no_obsdata', 'type_number', 'value_string', 'no_type', 'deltas_strin
 
 
 def check_case(ctx, case, collect=None):
+    if case['struct'] == 'tree':
+        return check_tree(ctx, case)
     probs = []
     x = build(case)
     ref = canon(x)
@@ -387,6 +585,10 @@ def check_case(ctx, case, collect=None):
 
 def gen_case(ctx):
     rng = ctx.rng
+    if rng.random() < 0.3:
+        return {'struct': 'tree', 'transport': 'functions', 'seed': rng.getrandbits(28), 'depth': rng.choice([1, 2, 2, 3, 4]),
+                'reps': rng.choice(['DICTOBS', 'DICTOBS', 'DICTOBS', 'OBS', 'a1', 'D', 'Q9', 'DICTOBS', 'OBS', 'x_y', '']), 'adv': rng.choice([None, 'near', 'near', 'clash']),
+                'file': rng.random() < 0.25, 'gz': rng.random() < 0.5}
     k = rng.choice(['obs', 'obs', 'list', 'list', 'array', 'array', 'corr', 'corr', 'dict'])
     case = {'struct': k, 'seed': rng.getrandbits(28), 'indent': rng.choice([0, 1]), 'gz': rng.random() < 0.5,
             'transport': rng.choice(['string', 'string', 'file', 'file', 'pickle', 'csv', 'sql']), 'cov': rng.choice([None, None, 1, 2, 3]),
